@@ -12,7 +12,9 @@ THEOREMS = ["C04.C04_inflight_le_max", "C04.C04_reject_iff_full", "C04.C04_slots
 RACE = True
 JOBS = 12
 RULE = ("scenario = deterministic interleaving of start/finish(normal|panic) events of up to 40 requests from 1-4 sources "
-        "against limits -1..5 (handlers block on channels), built-in header extractor or a custom extractor with amounts "
+        "against limits -1..5 (handlers block on channels), built-in header extractor (configured header name and the name the client sends "
+        "spelled independently: canonical, lower, upper, mixed case) with connlimit's Verbose / Logger / ErrorHandler options switched on "
+        "and off from the cfg line, or a custom extractor with amounts "
         "0..3/-1 and extractor errors, usually followed by a drain and max+1 fresh arrivals; a third of the scenarios use a parking "
         "ErrorHandler (slowreject=1: rejections stay in progress until finished); a quarter are burst scenarios: rounds of pstart = "
         "8-16 simultaneous arrivals of one source lined up by a barrier inside the extractor, limit 1-3; thorough additionally enumerates "
@@ -31,6 +33,43 @@ TRUSTED = ["pstart: the spin barrier makes simultaneous arrivals likely to overl
 
 
 # ------------------------------------------------------------------------------------------ generation
+HNAMES = ["X-Src", "X-Client-Id", "Authorization", "X-Api-Key", "Client"]
+
+
+def _spell(rng, name):
+    k = rng.random()
+    if k < 0.3:
+        return name
+    if k < 0.55:
+        return name.lower()
+    if k < 0.75:
+        return name.upper()
+    return "".join(c.upper() if rng.random() < 0.5 else c.lower() for c in name)
+
+
+def _cfg(rng, mx, builtin, slow):
+    """cfg line: every exported option of connlimit (ErrorHandler, Verbose, Logger) and, for the built-in header extractor, the
+    spelling of the configured variable and of the header the client sends, chosen independently"""
+    t = ["cfg", "max=%d" % mx, "ext=%s" % ("builtin" if builtin else "custom")]
+    if slow:
+        t.append("slowreject=1")
+    k = rng.random()
+    if k < 0.4:
+        t.append("verbose=1")
+    elif k < 0.55:
+        t.append("verbose=0")
+    if rng.random() < 0.5:
+        t.append("log=1")
+    if builtin and rng.random() < 0.8:
+        name = rng.choice(HNAMES)
+        t.append("hvar=" + _spell(rng, name))
+        t.append("hsend=" + _spell(rng, name))
+    return " ".join(t)
+
+
+EXTRAS = ["", " verbose=1 log=1", " hvar=x-client-id hsend=X-Client-Id", " verbose=1", " hvar=X-API-KEY hsend=x-api-key log=1",
+          " verbose=0 log=1", " hvar=authorization hsend=AUTHORIZATION verbose=1"]
+
 def _tail(lines, live, mx, tag, rng=None):
     """drain, then max+1 fresh arrivals of one source"""
     for i, rid in enumerate(list(live)):
@@ -45,7 +84,7 @@ def _burst_scenario(rng, tier):
     mx = rng.choice([1, 1, 2, 2, 3])
     slow = rng.random() < 0.25
     builtin = rng.random() < 0.15
-    lines = ["cfg max=%d ext=%s%s" % (mx, "builtin" if builtin else "custom", " slowreject=1" if slow else "")]
+    lines = [_cfg(rng, mx, builtin, slow)]
     srcs = ["s0", "s1"]
     held = {s: [] for s in srcs}
     rej = []
@@ -86,7 +125,7 @@ def gen(rng, tier):
         slow = rng.random() < 0.33
         nsrc = rng.randint(1, 4)
         srcs = ["s%d" % i for i in range(nsrc)]
-        lines = ["cfg max=%d ext=%s%s" % (mx, "builtin" if builtin else "custom", " slowreject=1" if slow else "")]
+        lines = [_cfg(rng, mx, builtin, slow)]
         odd = (not builtin) and rng.random() < 0.35       # scenario with amounts != 1
         live = []                                          # ids the generator believes are inside the handler
         rej = []                                           # ids the generator believes are parked in the error handler
@@ -201,6 +240,7 @@ def _interleavings(n, mx, nsrc, modes, slow=False):
 def exhaustive(tier):
     if tier != "thorough":
         return
+    k = 0
     for mx in (0, 1, 2):
         for nsrc in (1, 2):
             for n in range(1, 7):
@@ -208,7 +248,8 @@ def exhaustive(tier):
                     if mx == 0 and modes != "n":
                         continue
                     for body in _interleavings(n, mx, nsrc, modes):
-                        lines = ["cfg max=%d ext=builtin" % mx] + body
+                        k += 1
+                        lines = ["cfg max=%d ext=builtin%s" % (mx, EXTRAS[k % len(EXTRAS)])] + body
                         _tail(lines, [], mx, "z")
                         yield lines
     for mx in (0, 1, 2):
@@ -218,7 +259,8 @@ def exhaustive(tier):
                     if mx == 0 and modes != "n":
                         continue
                     for body in _interleavings(n, mx, nsrc, modes, slow=True):
-                        lines = ["cfg max=%d ext=builtin slowreject=1" % mx] + body
+                        k += 1
+                        lines = ["cfg max=%d ext=builtin slowreject=1%s" % (mx, EXTRAS[k % len(EXTRAS)])] + body
                         for i in range(max(mx, 0) + 1):
                             lines.append("start qz%d s0" % i)
                         yield lines
@@ -239,6 +281,7 @@ def _walk(ops, outs):
     bad = []
     mx = None
     slow = False
+    same = True
     live = {}          # id -> src: inside the protected handler
     rej = {}           # id -> src: parked inside the slow error handler
     cnt = {}
@@ -251,9 +294,11 @@ def _walk(ops, outs):
         if f[0] == "cfg":
             mx = 0
             slow = "slowreject=1" in f
-            for t in f[1:]:
-                if t.startswith("max="):
-                    mx = int(t[4:])
+            kv = dict(t.split("=", 1) for t in f[1:] if "=" in t)
+            mx = int(kv.get("max", "0"))
+            # built-in header extractor: header names are case-insensitive, so any spelling of the same name identifies the client;
+            # a client that sends another header has no identity (token "")
+            same = kv.get("ext") != "builtin" or kv.get("hvar", "X-Src").lower() == kv.get("hsend", "X-Src").lower()
             live, rej, cnt, pos, one = {}, {}, {}, True, True
             continue
         if o in ("bad-op", "dup", "unknown"):
@@ -265,7 +310,7 @@ def _walk(ops, outs):
                 bad.append("dup: burst with fresh ids %s* answered dup" % f[3])
             continue
         if f[0] == "start":
-            rid, src = f[1], f[2]
+            rid, src = f[1], (f[2] if same else "")
             amt, err = 1, False
             for t in f[3:]:
                 if t.startswith("amt="):
@@ -307,7 +352,7 @@ def _walk(ops, outs):
                 if o == "rejecting":
                     rej[rid] = src
         elif f[0] == "pstart":
-            n, src, pre = int(f[1]), f[2], f[3]
+            n, src, pre = int(f[1]), (f[2] if same else ""), f[3]
             m = re.match(r"^admitted=(\d+) (rejected|rejecting)=(\d+)$", o)
             if not m or (m.group(2) == "rejecting") != slow:
                 bad.append("status: burst of %d arrivals of %s answered %r" % (n, src, o))
@@ -351,6 +396,8 @@ def _walk(ops, outs):
             elif o in ("released", "rejected-done"):
                 bad.append("exit: finish of %s, which is neither inside the handler nor being rejected, answered %s" % (rid, o))
         elif f[0] == "inflight":
+            if not same:
+                continue
             if o != str(cnt.get(f[1], 0)):
                 bad.append("observed: %s requests of %s observed inside the handler, the log says %d" % (o, f[1], cnt.get(f[1], 0)))
             elif pos and cnt.get(f[1], 0) > max(mx, 0):
